@@ -441,6 +441,9 @@ class Run:
                     elif op[0] == "NOW":
                         # the wall clock the STORE handler stamps events with (whole seconds) is pinned to this value
                         self.eng.cmd(f"!now {int(op[1])}")
+                    elif op[0] == "CLOCKMS":
+                        # the event-id generator's millisecond clock reads op[1], op[1]+1, ... from now on (this lifetime)
+                        self.eng.cmd(f"!clock_ms 1 {int(op[1])}")
                     elif op[0] == "SLEEP":
                         self.eng.cmd(f"!sleep {int(op[1])}")
                     elif op[0] == "FAILIDX":
